@@ -20,69 +20,157 @@ import (
 	"sync"
 	"time"
 
+	ssi "github.com/nuts-foundation/go-did"
+	"github.com/nuts-foundation/go-did/did"
 	"github.com/nuts-foundation/go-stoabs"
 	"github.com/nuts-foundation/nuts-node/core"
 	"github.com/nuts-foundation/nuts-node/crypto/hash"
+	"github.com/nuts-foundation/nuts-node/vdr/resolver"
 	"github.com/sirupsen/logrus"
 	bboltlib "go.etcd.io/bbolt"
 	"verif.local/h"
 )
 
 // ---------------------------------------------------------------------------------------------------------------------
-// key resolver: the generator's record of what each kid denotes, and as of which transactions
+// key resolution: the REAL dag.SourceTXKeyResolver (keys.go) in front of a small versioned DID-document store. The store is
+// also the generator's record (ground truth) of which key a kid denoted in which version, and which transaction produced
+// that version.
 
-type c06KeyRecord struct {
-	pub  crypto.PublicKey
-	asOf map[hash.SHA256Hash]bool // nil = in every version of the signer's document
+type c06DocVersion struct {
+	keys    map[string]crypto.PublicKey // kid -> key listed by this version of the document
+	sources map[hash.SHA256Hash]bool    // transactions that produced this version; nil = harness shortcut for documents without
+	// a modelled history (G-DAG history, fuzz fixture): matches every source-transaction query
 }
 
 type c06Resolver struct {
 	mu    sync.Mutex
-	recs  map[string]c06KeyRecord
-	shape *vdKeyResolver // kids of the G-DAG history
+	docs  map[string][]c06DocVersion // DID -> versions, oldest first
+	shape *vdKeyResolver             // kids of the G-DAG history
 }
 
+func c06DIDOf(kid string) string { return strings.SplitN(kid, "#", 2)[0] }
+
+// register (re)defines the document of kid's DID as ONE version listing the key, produced by the asOf transactions.
 func (r *c06Resolver) register(kid string, pub crypto.PublicKey, asOf ...hash.SHA256Hash) {
-	rec := c06KeyRecord{pub: pub}
+	v := c06DocVersion{keys: map[string]crypto.PublicKey{kid: pub}}
 	if len(asOf) > 0 {
-		rec.asOf = map[hash.SHA256Hash]bool{}
+		v.sources = map[hash.SHA256Hash]bool{}
 		for _, a := range asOf {
-			rec.asOf[a] = true
+			v.sources[a] = true
 		}
 	}
 	r.mu.Lock()
-	r.recs[kid] = rec
+	r.docs[c06DIDOf(kid)] = []c06DocVersion{v}
 	r.mu.Unlock()
 }
 
-func (r *c06Resolver) lookup(kid string) (c06KeyRecord, bool) {
+// addVersion appends a version of a document: the keys it lists and the transaction that published it.
+func (r *c06Resolver) addVersion(didStr string, keys map[string]crypto.PublicKey, source hash.SHA256Hash) {
+	v := c06DocVersion{keys: map[string]crypto.PublicKey{}, sources: map[hash.SHA256Hash]bool{source: true}}
+	for k, p := range keys {
+		v.keys[k] = p
+	}
 	r.mu.Lock()
-	rec, ok := r.recs[kid]
+	r.docs[didStr] = append(r.docs[didStr], v)
 	r.mu.Unlock()
-	if ok {
-		return rec, true
-	}
-	if pub, err := r.shape.ResolvePublicKey(kid, nil); err == nil {
-		return c06KeyRecord{pub: pub}, true
-	}
-	return c06KeyRecord{}, false
 }
 
-// ResolvePublicKey mirrors dag.SourceTXKeyResolver: the key must be in the document version produced by one of the refs.
-func (r *c06Resolver) ResolvePublicKey(kid string, refs []hash.SHA256Hash) (crypto.PublicKey, error) {
-	rec, ok := r.lookup(kid)
+func (r *c06Resolver) versions(didStr string) []c06DocVersion {
+	r.mu.Lock()
+	vs := r.docs[didStr]
+	r.mu.Unlock()
+	if vs != nil {
+		return vs
+	}
+	if pub, err := r.shape.ResolvePublicKey(didStr+"#k", nil); err == nil {
+		return []c06DocVersion{{keys: map[string]crypto.PublicKey{didStr + "#k": pub}}}
+	}
+	return nil
+}
+
+// Resolve implements resolver.DIDResolver the way the did:nuts store does: a SourceTransaction selects the version that
+// transaction produced (ErrNotFound if none), otherwise the latest version is returned.
+func (r *c06Resolver) Resolve(id did.DID, md *resolver.ResolveMetadata) (*did.Document, *resolver.DocumentMetadata, error) {
+	vs := r.versions(id.String())
+	if len(vs) == 0 {
+		return nil, nil, resolver.ErrNotFound
+	}
+	pick := len(vs) - 1
+	if md != nil && md.SourceTransaction != nil {
+		pick = -1
+		for i := len(vs) - 1; i >= 0; i-- {
+			if vs[i].sources == nil || vs[i].sources[*md.SourceTransaction] {
+				pick = i
+				break
+			}
+		}
+		if pick < 0 {
+			return nil, nil, resolver.ErrNotFound
+		}
+	}
+	doc := &did.Document{ID: id}
+	kids := make([]string, 0, len(vs[pick].keys))
+	for k := range vs[pick].keys {
+		kids = append(kids, k)
+	}
+	sort.Strings(kids)
+	for _, k := range kids {
+		vmID, err := did.ParseDIDURL(k)
+		if err != nil {
+			return nil, nil, err
+		}
+		vm, err := did.NewVerificationMethod(*vmID, ssi.JsonWebKey2020, id, vs[pick].keys[k])
+		if err != nil {
+			return nil, nil, err
+		}
+		doc.VerificationMethod.Add(vm)
+	}
+	meta := &resolver.DocumentMetadata{}
+	for s := range vs[pick].sources {
+		meta.SourceTransactions = append(meta.SourceTransactions, s)
+	}
+	return doc, meta, nil
+}
+
+// vouched is the ground truth: does kid denote a key at all, and is there, among prevs, a transaction that produced a
+// version of the signer's document that lists it (then: which key).
+func (r *c06Resolver) vouched(kid string, prevs []hash.SHA256Hash) (pub crypto.PublicKey, known, vouched bool) {
+	for _, v := range r.versions(c06DIDOf(kid)) {
+		k, lists := v.keys[kid]
+		if !lists {
+			continue
+		}
+		known = true
+		if v.sources == nil {
+			return k, true, true
+		}
+		for _, p := range prevs {
+			if v.sources[p] {
+				return k, true, true
+			}
+		}
+	}
+	return nil, known, false
+}
+
+// resolvable: SourceTXKeyResolver walks prevs in order and gives up at the first one that produced a version NOT listing the
+// key, so a built transaction is only DUE to be accepted when a prev vouches and no prev names such a version.
+func (r *c06Resolver) resolvable(kid string, prevs []hash.SHA256Hash) bool {
+	_, _, ok := r.vouched(kid, prevs)
 	if !ok {
-		return nil, errors.New("verif: unknown kid " + kid)
+		return false
 	}
-	if rec.asOf == nil {
-		return rec.pub, nil
-	}
-	for _, ref := range refs {
-		if rec.asOf[ref] {
-			return rec.pub, nil
+	for _, v := range r.versions(c06DIDOf(kid)) {
+		if _, lists := v.keys[kid]; lists || v.sources == nil {
+			continue
+		}
+		for _, p := range prevs {
+			if v.sources[p] {
+				return false
+			}
 		}
 	}
-	return nil, errors.New("verif: key not in the document as of the referenced transactions")
+	return true
 }
 
 // ---------------------------------------------------------------------------------------------------------------------
@@ -154,6 +242,10 @@ type c06Fix struct {
 	want  map[string][]string
 
 	known   map[hash.SHA256Hash][]byte // payload hash -> bytes of every payload the generator made (stored or not)
+	dids    [2]*c06DIDState
+	ovPrevs []hash.SHA256Hash // overrides for base(): exact prevs, signing key, kid of a document with a history
+	ovKey   *c06Key
+	ovKid   string
 	last    c06Dump
 	ntfs    []Notifier
 	offers  int
@@ -196,10 +288,10 @@ func c06NewFixAt(x *h.Ctx, dir string, shapeRes *vdKeyResolver) *c06Fix {
 	c06Quiet()
 	f := &c06Fix{x: x, ctx: context.Background(), ref: vdNewRef(), pay: map[hash.SHA256Hash][]byte{}, withPay: map[hash.SHA256Hash]bool{},
 		logs: map[string][]string{}, want: map[string][]string{}, bar: &c06Barrier{}, known: map[hash.SHA256Hash][]byte{},
-		res: &c06Resolver{recs: map[string]c06KeyRecord{}, shape: shapeRes}}
+		res: &c06Resolver{docs: map[string][]c06DocVersion{}, shape: shapeRes}}
 	kv, err := vdOpenKV(dir)
 	x.NoErr(err, "open kv")
-	s, err := NewState(kv, NewPrevTransactionsVerifier(), NewTransactionSignatureVerifier(f.res), f.bar.verifier)
+	s, err := NewState(kv, NewPrevTransactionsVerifier(), NewTransactionSignatureVerifier(SourceTXKeyResolver{Resolver: f.res}), f.bar.verifier)
 	if err != nil {
 		_ = kv.Close(f.ctx)
 		x.Fatalf("NewState: %v", err)
@@ -266,6 +358,8 @@ type c06Dump struct {
 	xorLC   uint32
 	iblt    string
 	high    uint32
+	clocks  string // the clock half of XOR(c) / IBLT(c) for c in {0, max, max+1, MaxLamportClock}
+	diag    string // diagnostics (without the file-size statistic)
 }
 
 func (f *c06Fix) dump() c06Dump {
@@ -290,6 +384,17 @@ func (f *c06Fix) dump() c06Dump {
 	b, _ := ib.MarshalBinary()
 	d.iblt = string(b)
 	d.high = f.st.lamportClockHigh.Load()
+	max := f.ref.maxClock()
+	for _, c := range []uint32{0, max, max + 1, MaxLamportClock} {
+		_, xc := f.st.XOR(c)
+		_, ic := f.st.IBLT(c)
+		d.clocks += fmt.Sprintf("XOR(%d)@%d IBLT(%d)@%d; ", c, xc, c, ic)
+	}
+	for _, r := range f.st.Diagnostics() {
+		if r.Name() != "stored_database_size_bytes" {
+			d.diag += fmt.Sprintf("%s=%v; ", r.Name(), r.Result())
+		}
+	}
 	return d
 }
 
@@ -322,14 +427,23 @@ func c06DumpDiff(a, b c06Dump) (where, detail string) {
 			}
 		}
 	}
-	if !a.xor.Equals(b.xor) || a.xorLC != b.xorLC {
+	if !a.xor.Equals(b.xor) {
 		return "mem:xor", fmt.Sprintf("in-memory XOR %s@%d -> %s@%d", a.xor, a.xorLC, b.xor, b.xorLC)
+	}
+	if a.xorLC != b.xorLC {
+		return "mem:digest-clocks", fmt.Sprintf("clock the XOR digest is reported for: %d -> %d (value unchanged)", a.xorLC, b.xorLC)
 	}
 	if a.iblt != b.iblt {
 		return "mem:iblt", "in-memory IBLT changed"
 	}
 	if a.high != b.high {
 		return "mem:clock-high", fmt.Sprintf("highest clock %d -> %d", a.high, b.high)
+	}
+	if a.clocks != b.clocks {
+		return "mem:digest-clocks", fmt.Sprintf("clocks the digests are reported for: %s -> %s", a.clocks, b.clocks)
+	}
+	if a.diag != b.diag {
+		return "diagnostics", fmt.Sprintf("diagnostics %s -> %s", a.diag, b.diag)
 	}
 	return "", ""
 }
@@ -468,6 +582,22 @@ func (f *c06Fix) checkState(step int, phase string, cur c06Dump) {
 	if wx := r.xorUpTo(MaxLamportClock); !cur.xor.Equals(wx) || cur.xorLC != max {
 		f.violate(sig("xor"), "offer %d (%s): XOR %s@%d, model %s@%d", step, phase, cur.xor, cur.xorLC, wx, max)
 	}
+	// the clock half of the digest answers (what State and gossip messages tell peers), and the diagnostics
+	for _, c := range []uint32{0, max, max + 1, MaxLamportClock} {
+		want := r.expectedDigestClock(c)
+		if _, xc := f.st.XOR(c); xc != want {
+			f.violate(sig("xor-clock"), "offer %d (%s): XOR(%d) is reported for clock %d, model %d", step, phase, c, xc, want)
+		}
+		if _, ic := f.st.IBLT(c); ic != want {
+			f.violate(sig("iblt-clock"), "offer %d (%s): IBLT(%d) is reported for clock %d, model %d", step, phase, c, ic, want)
+		}
+	}
+	if want := fmt.Sprintf("dag_lc_high=%d; ", max); !strings.Contains(cur.diag, want) {
+		f.violate(sig("diag-lc-high"), "offer %d (%s): diagnostics say %s, model highest clock %d", step, phase, cur.diag, max)
+	}
+	if want := fmt.Sprintf("transaction_count=%d; ", len(r.set)); !strings.Contains(cur.diag, want) {
+		f.violate(sig("diag-count"), "offer %d (%s): diagnostics say %s, model has %d transactions", step, phase, cur.diag, len(r.set))
+	}
 	gi, _ := f.st.IBLT(MaxLamportClock)
 	if err := gi.Subtract(r.ibltUpTo(MaxLamportClock)); err != nil || !gi.Empty() {
 		f.violate(sig("iblt"), "offer %d (%s): IBLT differs from the model's (%v)", step, phase, err)
@@ -556,20 +686,14 @@ func (f *c06Fix) checkAdmitted(step int, what string, tx Transaction, data, payl
 		}
 		pub = p
 	default:
-		rec, ok := f.res.lookup(kid)
-		if !ok {
-			bad("kid-unknown", "kid %q denotes no key", kid)
-		} else {
-			pub = rec.pub
-			if rec.asOf != nil {
-				hit := false
-				for _, p := range tx.Previous() {
-					hit = hit || rec.asOf[p]
-				}
-				if !hit {
-					bad("kid-not-as-of-prevs", "kid %q is not in the signer's document as of any referenced transaction", kid)
-				}
-			}
+		p, known, ok := f.res.vouched(kid, tx.Previous())
+		switch {
+		case !known:
+			bad("kid-unknown", "kid %q denotes no key in any version of the signer's document", kid)
+		case !ok:
+			bad("kid-not-as-of-prevs", "none of the referenced transactions produced a version of the signer's document that lists kid %q", kid)
+		default:
+			pub = p
 		}
 	}
 	if pub != nil && c06AllowedAlgs[alg] && !c06VerifyRaw(alg, pub, d.signingInput, d.sig) {
